@@ -236,6 +236,28 @@ fn c10_should_lstrip_only_at_line_start() {
     kani::cover!(!got && flag && which == 1);
 }
 
+// @verif props=C10 tier=quick cap=900 group=syntax fns=should_lstrip_block
+/// Line statements and line comments (custom syntax) own the indentation in front of them whatever lstrip_blocks
+/// says: for EVERY prefix of up to 3 bytes over {space, tab, LF, 'a'} whose last line holds only spaces/tabs, the
+/// whitespace in front of the marker is stripped - for both kinds of line marker, with the setting on and off.
+#[cfg(feature = "custom_syntax")]
+#[kani::proof]
+#[kani::unwind(6)]
+fn c10_line_markers_own_their_indentation() {
+    sym_text!(buf, len, 3, [b' ', b'\t', b'\n', b'a']);
+    let s = unsafe { core::str::from_utf8_unchecked(&buf[..len]) };
+    let flag: bool = kani::any();
+    let comment: bool = kani::any();
+    let marker = if comment { StartMarker::LineComment } else { StartMarker::LineStatement };
+    let k = ref_trim_hws(&buf[..len]);
+    let line_start = k == 0 || buf[k - 1] == b'\n';
+    kani::assume(line_start);
+    let got = should_lstrip_block(flag, marker, s);
+    assert!(got);
+    kani::cover!(comment && !flag && len == 3 && k == 1);
+    kani::cover!(!comment && flag && len == 2);
+}
+
 // @verif props=C10 tier=quick cap=900 group=core fns=Tokenizer::new
 /// Trailing-newline rule: for EVERY source of up to 4 bytes over {LF, CR, 'a', space} the tokenizer's text is
 /// the source itself when keep_trailing_newline is set, and otherwise the source minus exactly one trailing
